@@ -287,6 +287,11 @@ class HeapFn(cxx2gal.LoopFn):
                 return self.E(x, lambda p: self.E(inn[2], lambda sz: "(let evs := evs ++ [%s %s %s] in %s)" % (con, p, sz, k("0"))))
             if isinstance(spec0, dict) and spec0.get("event"):
                 return "(let evs := evs ++ [%s] in %s)" % (spec0["event"], k("0"))
+            if isinstance(spec0, dict) and spec0.get("pop"):          # the next value of an oracle stream (a ghost list)
+                g, r = spec0["pop"], self.tmp("o")
+                return "(match %s with nil => Oob | cons %s %s => %s end)" % (g, r, g, k(r))
+            if isinstance(spec0, dict) and spec0.get("ignore"):
+                return k("0")
             if isinstance(spec0, dict) and spec0.get("abort"):          # leaves the function (the test is failed and exited)
                 return "(let evs := evs ++ [%s] in %s)" % (spec0["abort"], self.ret("tt" if self.void else "0"))
         if kd == "UnaryExprOrTypeTraitExpr" and n.get("name") == "sizeof":
@@ -362,7 +367,8 @@ class HeapFn(cxx2gal.LoopFn):
                 flags.add("call")
                 if spec.get("writes") or self.cfg.get("ghosts"):
                     flags.add("store")
-            if isinstance(spec, dict) and (spec.get("method") or spec.get("alloc") or spec.get("free") or spec.get("event") or spec.get("abort")):
+            if isinstance(spec, dict) and (spec.get("method") or spec.get("alloc") or spec.get("free") or spec.get("event") or spec.get("abort")
+                                           or spec.get("pop")):
                 for g, _ in self.cfg.get("ghosts", []):
                     assigned.add(g)
                     refs.add(g)
@@ -443,6 +449,11 @@ class HeapFn(cxx2gal.LoopFn):
             if nm in self.vars:
                 ps.append("(%s : %s)" % (nm, self.vars[nm]))
         hdr = "(* %s : %s *)\n" % (self.cfg["file"], self.cfg["name"])
+        if self.cfg.get("recursive"):
+            # a function that calls itself: a Fixpoint on the fuel; every call made by the body (also the one to itself) gets the predecessor
+            return hdr + "".join(self.loops) + ("Fixpoint %s (fuel0 : nat) (mem : heap) %s {struct fuel0} : fres %s :=\n  match fuel0 with O => FNoFuel | S fuel0 =>\n"
+                                                "  finish (R := %s) (A := unit)\n    %s\n  end.\n") % (
+                self.coq, " ".join(ps), self.rtype, self.rtype, pretty(text))
         return hdr + "".join(self.loops) + ("Definition %s (fuel0 : nat) (mem : heap) %s : fres %s :=\n  finish (R := %s) (A := unit)\n    %s.\n") % (
             self.coq, " ".join(ps), self.rtype, self.rtype, pretty(text))
 
